@@ -1360,6 +1360,21 @@ func c16CompareModel(c *kit.Ctx, l *Ledger, m *hlModel, u *hlUniverse, bal, top 
 	return bad
 }
 
+// c16KvCollision reports two different boxes of the file whose key||value byte strings coincide
+// (KvHashBuilderV6 gives them the same trie leaf).
+func c16KvCollision(d *c16Doc) (string, bool) {
+	seen := map[string][]byte{}
+	for _, ref := range d.refs("kv") {
+		kv := d.items[ref.item].chunk.KVs[ref.idx]
+		pre := string(kv.Key) + string(kv.Value)
+		if other, ok := seen[pre]; ok && !bytes.Equal(other, kv.Key) {
+			return fmt.Sprintf("key %x (value %d bytes) and key %x: both hash the bytes %x", other, len(pre)-len(other), kv.Key, pre), true
+		}
+		seen[pre] = kv.Key
+	}
+	return "", false
+}
+
 // c16Apps lists every application index that ever existed, sorted.
 func c16Apps(m *hlModel) []basics.AppIndex {
 	var out []basics.AppIndex
@@ -1506,7 +1521,7 @@ func TestVerifC16(t *testing.T) {
 				}
 			}
 		}
-		for rnd := a.l.Latest() / iv * iv; rnd >= iv && len(cands) < filesPerHistory+1; rnd -= iv {
+		for rnd := a.l.Latest() / iv * iv; rnd >= iv && len(cands) < filesPerHistory+4; rnd -= iv {
 			entries, err := cpReadCatchpointFile(a.l, rnd)
 			if err != nil {
 				continue
@@ -1531,7 +1546,11 @@ func TestVerifC16(t *testing.T) {
 				altDoc = f.doc
 			}
 		}
+		campaigns := 0
 		for fi, f := range cands {
+			if !f.genuineOnly && campaigns >= filesPerHistory {
+				continue
+			}
 			label, ok := labels[f.rnd]
 			if !ok {
 				label = f.doc.hdr.Catchpoint
@@ -1571,6 +1590,19 @@ func TestVerifC16(t *testing.T) {
 			lcMut.DisableLedgerLRUCache = true // opening a ledger otherwise allocates ~100 MB of LRU buffers
 			lcMut.TxPoolSize, lcMut.VerifiedTranscationsCacheSize = 100, 100
 			base := cpRestore(c, genesis, lcDump, cpTar(f.entries), label, src)
+			if desc, collide := c16KvCollision(f.doc); collide && base.Stage == "build-trie" {
+				// the known finding met in the wild: the history itself created two legal boxes of one
+				// application whose key||value coincide (e.g. ("ab","c") and ("abc","")); their trie leaves are
+				// equal, the producer's trie holds one of them, and the restoring node refuses the honest file
+				// ("same account more than once"). Same root cause, same key; another file is used instead.
+				c.Count("c16.genuine_files_with_colliding_boxes", 1)
+				c.Violation("kv-preimage-boundary-shift", map[string]any{"manifestation": "an HONEST catchpoint file is rejected by the restoring node because the state holds two legal boxes with equal key||value", "boxes": desc, "round": f.rnd, "label": label, "stage": base.Stage, "error": fmt.Sprint(base.Err), "config": cfg.String()})
+				cpRemove(base.Dir)
+				continue
+			}
+			if !f.genuineOnly {
+				campaigns++
+			}
 			if base.Stage != "adopted" {
 				c.Violation("genuine-file-rejected", map[string]any{"round": f.rnd, "label": label, "stage": base.Stage, "error": fmt.Sprint(base.Err), "config": cfg.String(), "trace": a.traceTail(30)})
 				continue
